@@ -714,6 +714,9 @@ pub struct GenOpts {
     pub k_min: u32,
     pub k_max: u32,
     pub allow_phases: bool,
+    /// largest rotation (in absolute value) used by gates: 2, or 1 for circuits
+    /// meant for the in-circuit verifier, which supports -1, 0, 1 only
+    pub max_rot: i32,
 }
 
 fn max_phase(spec: &Spec) -> u8 {
@@ -798,7 +801,7 @@ pub fn gen_spec(rng: &mut Prng, o: GenOpts) -> Spec {
     // gates
     let n_gates = rng.range(1, 4) as usize;
     for _ in 0..n_gates {
-        let g = gen_gate(rng, &spec);
+        let g = gen_gate(rng, &spec, o.max_rot);
         spec.gates.push(g);
     }
     // lookups
@@ -934,13 +937,13 @@ fn cell_phase(spec: &Spec, g: &GateSpec, j: usize) -> u8 {
     }
 }
 
-fn gen_gate(rng: &mut Prng, spec: &Spec) -> GateSpec {
+fn gen_gate(rng: &mut Prng, spec: &Spec, max_rot: i32) -> GateSpec {
     let mp = max_phase(spec);
     let n_cons = rng.range(1, 3) as usize;
     let mut cells: Vec<Cref> = vec![];
     let mut constraints = vec![];
     let mut outs: Vec<Cref> = vec![];
-    let rot = |rng: &mut Prng| -> i32 { *rng.pick(&[0, 0, 0, 1, -1, 2, -2]) };
+    let rot = |rng: &mut Prng| -> i32 { (*rng.pick(&[0, 0, 0, 1, -1, 2, -2])).clamp(-max_rot, max_rot) };
     for _ in 0..n_cons {
         // the out cell: an advice cell in some phase p_out; inputs are advice
         // cells of phase <= p_out, challenges usable after phases < p_out
@@ -949,7 +952,7 @@ fn gen_gate(rng: &mut Prng, spec: &Spec) -> GateSpec {
         let mut out = Cref { kind: Kind::A, col: out_col, rot: rot(rng) };
         let mut guard = 0;
         while outs.contains(&out) || cells.contains(&out) {
-            out.rot = (out.rot + 3 + guard) % 5 - 2;
+            out.rot = if max_rot >= 2 { (out.rot + 3 + guard) % 5 - 2 } else { (out.rot + 2 + guard) % 3 - 1 };
             guard += 1;
             if guard > 6 {
                 break;
